@@ -48,7 +48,7 @@ def lean_obligations(pid):
         res["errors"].append("no Properties/" + pid + ".lean")
         return res
     src = strip_lean_comments(open(pfile).read())
-    names = re.findall(r"^\s*theorem\s+([A-Za-z0-9_.']+)", src, flags=re.M)
+    names = [n for n in re.findall(r"^\s*theorem\s+([A-Za-z0-9_.']+)", src, flags=re.M) if n.startswith(pid + "_")]
     if not names:
         res["ok"] = False
         res["errors"].append("no theorems in Properties/" + pid + ".lean")
